@@ -186,19 +186,52 @@ def rule_r2(ctx) -> List[R.Inst]:
     rid = "C07.R2"
     insts = []
     # package header
-    fn = M.fn(PKG + ".read_event_packages")
+    fn = M.nfn(PKG + ".read_event_packages")
     file = M.mods[fn.mod].rel
     want = {"measure": ("<i", 0, 4), "channel": ("<h", 4, 6), "event_count": ("<h", 6, 8)}
     got = {}
+
+    def consts(e):
+        """module-level constants replaced by their literal values"""
+        import copy as _copy
+
+        class T(ast.NodeTransformer):
+            def visit_Name(self, n):
+                try:
+                    v = M.lit(fn.mod, n, fn.cls)
+                except Exception:
+                    return n
+                return ast.copy_location(ast.Constant(value=v), n) if isinstance(v, (int, str, bytes)) else n
+        return T().visit(_copy.deepcopy(e))
+
+    def tname(t):
+        return t.attr if isinstance(t, ast.Attribute) else (t.id if isinstance(t, ast.Name) else None)
+    multi = None
     for n in ast.walk(fn.node):
         if isinstance(n, ast.Assign):
             t = n.targets[0]
-            nm = t.attr if isinstance(t, ast.Attribute) else (t.id if isinstance(t, ast.Name) else None)
+            nm = tname(t)
             for c in ast.walk(n.value):
-                if isinstance(c, ast.Call) and call_name(c) == "unpack" and len(c.args) == 2 and isinstance(c.args[0], ast.Constant):
+                if isinstance(c, ast.Call) and call_name(c) == "unpack" and len(c.args) == 2:
+                    f0 = consts(c.args[0])
+                    if not (isinstance(f0, ast.Constant) and isinstance(f0.value, str)):
+                        continue
                     sl = [x for x in ast.walk(c.args[1]) if isinstance(x, ast.Subscript) and isinstance(x.slice, ast.Slice)]
-                    if sl and isinstance(sl[0].slice.lower, ast.Constant) and isinstance(sl[0].slice.upper, ast.Constant):
-                        got[nm] = (c.args[0].value, sl[0].slice.lower.value, sl[0].slice.upper.value, n)
+                    if sl and isinstance(sl[0].slice.lower, ast.Constant) and isinstance(sl[0].slice.upper, ast.Constant) and nm:
+                        got[nm] = (f0.value, sl[0].slice.lower.value, sl[0].slice.upper.value, n)
+                    elif isinstance(t, ast.Tuple) and n.value is c and f0.value[:1] in "<>=!@" and len(f0.value) - 1 == len(t.elts) and \
+                            all(ch in "xcbB?hHiIlLqQnNefdspP" for ch in f0.value[1:]):
+                        # one unpack of the whole header: field k is the k-th format character, at the size of the characters before it
+                        bo = f0.value[0]
+                        for k, te in enumerate(t.elts):
+                            try:
+                                lo = struct.calcsize(bo + f0.value[1:1 + k])
+                                hi = struct.calcsize(bo + f0.value[1:2 + k])
+                            except struct.error:
+                                continue
+                            if tname(te):
+                                got[tname(te)] = (bo + f0.value[1 + k], lo, hi, n)
+                        multi = c
     for nm, w in want.items():
         key = f"package:{nm}"
         if nm not in got:
@@ -216,7 +249,17 @@ def rule_r2(ctx) -> List[R.Inst]:
                 any(isinstance(c, ast.Call) and call_name(c) == "popleft" for c in ast.walk(n)):
             tgt = [unparse(c.func.value.value if isinstance(c.func.value, ast.Attribute) else c.func.value)
                    for c in ast.walk(n) if isinstance(c, ast.Call) and call_name(c) == "append"]
-            rng[tgt[0] if tgt else "?"] = (n.iter.args[-1], n)
+            rng[tgt[0] if tgt else "?"] = (consts(n.iter.args[-1]), n)
+    # comprehension form: bytes([q.popleft() for _ in range(N)]) assigned to a name, or handed to the header's unpack
+    for n in ast.walk(fn.node):
+        if isinstance(n, ast.Assign):
+            for c in ast.walk(n.value):
+                if isinstance(c, (ast.ListComp, ast.GeneratorExp)) and isinstance(c.elt, ast.Call) and call_name(c.elt) == "popleft" and \
+                        len(c.generators) == 1 and isinstance(c.generators[0].iter, ast.Call) and call_name(c.generators[0].iter) == "range":
+                    N_ = consts(c.generators[0].iter.args[-1])
+                    in_hdr = multi is not None and any(x is c for x in ast.walk(multi))
+                    sink = "pkg_data" if in_hdr else (tname(n.targets[0]) or "?")
+                    rng.setdefault(sink, (N_, n))
     hp = rng.get("pkg_data")
     ep = rng.get("events_data")
     if hp and isinstance(hp[0], ast.Constant) and hp[0].value == 8:
